@@ -50,6 +50,10 @@ func c11Specs(tier string, seed int) []c11Spec {
 	for conc := 1; conc <= 3; conc++ {
 		out = append(out, c11Spec{Kind: "e4", Batch: []string{"Fsoil", "A", "Fyear", "B", "Ftill", "C"}, Conc: conc}, c11Spec{Kind: "e4", Batch: []string{"Fsoil", "Ffield", "Ftex"}, Conc: conc}, c11Spec{Kind: "e4", Batch: []string{"A", "Ag", "Fsoil", "B"}, Conc: conc})
 	}
+	// a valid line of a kind that must neither fail nor take the process down: partial management-event configuration
+	for conc := 1; conc <= 3; conc++ {
+		out = append(out, c11Spec{Kind: "e4", Batch: []string{"A", "Cm", "B"}, Conc: conc}, c11Spec{Kind: "e4", Batch: []string{"Cm", "Fsoil", "C"}, Conc: conc})
+	}
 	// E3: two valid lines and one failing line, every position, concurrency 1..3, all interleavings
 	bound := 1
 	if tier == "thorough" {
@@ -196,7 +200,7 @@ func c11Run(raw json.RawMessage, c *mc.Ctx) {
 				if strings.HasPrefix(n, "F") {
 					c.Violate("failing-line-kills-the-process "+n, fmt.Sprintf("line %s run alone: the process ended with exit code %d (timeout=%v) instead of reporting a run error: %s", n, code, to, tailStr(out, 300)), nil)
 				} else {
-					mc.HarnessError("C11: valid line %s failed alone: %s", n, tailStr(out, 300))
+					c.Violate("valid-line-kills-the-process "+n, fmt.Sprintf("line %s (valid input) run alone: the process ended with exit code %d (timeout=%v): %s", n, code, to, tailStr(out, 300)), nil)
 				}
 				return
 			}
